@@ -40,7 +40,11 @@ def run(ctx):
         'R9 typestate of the coolant Material shared by bundle interior and '
         'bypass: it is back at the interior temperature at the end of '
         'calculate() / activate() on every path and wherever a method that '
-        'reads self.coolant.<property> directly is called']
+        'reads self.coolant.<property> directly is called',
+        'R10 the bounds at which an assembly switches its active region are '
+        'the region objects\' own z values, unmodified (no rounding or '
+        'arithmetic): the power object and the mesh use the same input '
+        'numbers, so region and power zone switch on the same plane']
     ctx.not_decided += ['the numeric residual (round-off / first order in '
                         'dz)', 'symmetry of the run-time adjacency arrays '
                         '(C08)', 'that the flow-split factors make the '
@@ -53,6 +57,7 @@ def run(ctx):
     r8(ctx)
     from . import _coolstate
     _coolstate.check(ctx, 'C01.R9')
+    r10(ctx)
     ctx.min_instances('C01.R1', 4)
     ctx.min_instances('C01.R2', 2)
     ctx.min_instances('C01.R3', 12)
@@ -751,3 +756,56 @@ def r8(ctx):
     ctx.require(ok, 'C01.R8', init, st[0] if st else init.node,
                 'node flow = total / 6',
                 key='dassh.region_unrodded:MultiNodeHomogeneous | node flow')
+
+
+def r10(ctx):
+    """Assembly.region_bnd holds unmodified region bounds."""
+    fi = ctx.repo.func('assembly', 'Assembly.__init__')
+    apps = [c for c in ast.walk(fi.node) if isinstance(c, ast.Call)
+            and call_name(c) == 'self.region_bnd.append' and c.args]
+    if not apps:
+        raise AnalysisError('Assembly.__init__: region_bnd.append vanished')
+
+    def plain_bound(e):
+        """0.0 or <region expr>.z[k] with no call / arithmetic around."""
+        if isinstance(const(e), (int, float)):
+            return True
+        return isinstance(e, ast.Subscript) and isinstance(
+            e.value, ast.Attribute) and e.value.attr == 'z' and not any(
+                isinstance(x, (ast.Call, ast.BinOp)) for x in ast.walk(e))
+    n = 0
+    for c in apps:
+        arg = c.args[0]
+        vals = [arg]
+        if isinstance(arg, ast.Name):
+            vals = [a.value for a in U.assigns_of(fi.node, arg.id)
+                    if isinstance(a, ast.Assign)]
+            # comparisons that select the region whose lower bound it is
+            for cmp_ in ast.walk(fi.node):
+                if isinstance(cmp_, ast.Compare) and len(cmp_.ops) == 1 and \
+                        any(isinstance(x, ast.Name) and x.id == arg.id
+                            for x in [cmp_.left] + cmp_.comparators):
+                    other = [x for x in [cmp_.left] + cmp_.comparators
+                             if not (isinstance(x, ast.Name)
+                                     and x.id == arg.id)]
+                    vals += other
+        for v in vals:
+            n += 1
+            ctx.require(plain_bound(v), 'C01.R10', fi, v,
+                        'the region switching bounds must be the regions\' '
+                        'own z values as given (got `%s`): a rounded or '
+                        'shifted bound makes the assembly switch region on a '
+                        'different plane than the power zones, and the step '
+                        'in between deposits no heat' % _s(v),
+                        key='%s | region bound %s' % (fi.full, _s(v)))
+    if n < 3:
+        raise AnalysisError('Assembly.__init__: region bound rule matched '
+                            'only %d values' % n)
+    ia = ctx.repo.func('assembly', 'Assembly._identify_active_region')
+    ok = any(isinstance(c, ast.Call) and call_name(c) == 'bisect.bisect_left'
+             and [_s(a) for a in c.args] == ['self.region_bnd',
+                                             ia.params[1]]
+             for c in ast.walk(ia.node))
+    ctx.require(ok, 'C01.R10', ia, ia.node,
+                'the active region is found by bisect_left of the plane in '
+                'the unmodified bounds', key=ia.full + ' | bisect')
